@@ -342,6 +342,9 @@ func (a *actorState) exec(ctx context.Context, spec opSpec) {
 			return
 		}
 		n := 1 + spec.c%3
+		if w.staleRel {
+			n = 3 + spec.c%3 // more than two addresses: ReleaseIPs pre-fetches every handle
+		}
 		var opts []ipam.ReleaseOptions
 		var hs []string
 		for i := 0; i < n && i < len(a.acquired); i++ {
